@@ -234,6 +234,19 @@ def parse_result(text):
     return res
 
 
+REAL_CLASSES = (".assertion.", ".arithmetic_overflow.", ".overflow.", ".bounds_check.", ".division_by_zero.", ".array_bounds.", ".cover.")
+
+
+def is_real_failure_class(c):
+    """a failing user/library assertion, panic, arithmetic overflow, index or division check - as opposed
+    to Kani's generated pointer validity / alignment / unreachable-code checks"""
+    name = c["name"]
+    if any(k in name for k in REAL_CLASSES):
+        # "unreachable code" is reported under .assertion. too
+        return c["desc"] != "unreachable code"
+    return False
+
+
 def is_user_location(loc):
     """failing check located in the crate under test or in a harness (not in core/heapless/kani)"""
     l = loc.lstrip("./")
@@ -268,12 +281,12 @@ def classify(h, res, known_tags):
                 m = KF_RE.search(c["desc"])
                 if m and m.group(1) in known_tags:
                     out["known"].append((m.group(1), c))
-                elif is_user_location(c["loc"]):
+                elif is_real_failure_class(c):
                     out["failures"].append(c)
                 else:
-                    # a failing check inside core / heapless / kani library code with no failing check in
-                    # the crate or the harness: seen as an engine artefact under memory pressure
-                    # (three Vec::remove in a row); only believed if it reproduces natively
+                    # only Kani-generated pointer/alignment/"unreachable" checks failed: twice seen as an
+                    # engine artefact of harnesses that exhaust memory (18-28 GB), with no failing
+                    # assertion, overflow or bounds check anywhere; believed only if it reproduces natively
                     out["lib_failures"].append(c)
         else:
             out["failures"].append(c)
